@@ -191,9 +191,22 @@ Proof.
   unfold member_ok. now rewrite H2, H3.
 Qed.
 
+Lemma connect_sem_meta c cl nk w obs g : Forall2 same_meta g (fst (connect_sem c cl nk w obs g)).
+Proof.
+  assert (R : Forall2 same_meta g g) by (apply Forall2_refl_on, same_meta_refl).
+  unfold connect_sem.
+  destruct (find _ (c_table c)); [|exact R]. destruct (find _ (c_table c)); [exact R|].
+  destruct (match nk with Some k => negb (Nat.eqb k (List.length cl)) | None => false end); [exact R|].
+  assert (Z : Forall2 same_meta g (fst (if connect_valid cl w obs g
+              then (zip_assign "pipelines" g (map pipelines_value obs), ROk) else (g, RErr EOther)))).
+  { destruct (connect_valid cl w obs g); cbn [fst]; [|exact R].
+    eapply Forall2_weaken; [|apply zip_assign_frame]. intros x y; apply same_except_meta. }
+  destruct cl; [destruct g; [exact Z | exact R] | exact Z].
+Qed.
+
 Lemma step_ok c e g o : Forall (member_ok c) g -> Forall (member_ok c) (fst (step c e g o)).
 Proof.
-  intro G. destruct o as [id|k ids|a v|a|k| | |id' a v| |a v k' e'|]; cbn [step]; try exact G.
+  intro G. destruct o as [id|k ids|a v|a|k| | |id' a v| |a v k' e'| |cl nk w obs]; cbn [step]; try exact G.
   - destruct (type_of e id) as [ty|] eqn:T; [|exact G].
     destruct (fresh e id) as [m|] eqn:Fr; [|exact G].
     destruct (accepts c ty) eqn:A; [|exact G]. cbn [fst].
@@ -215,6 +228,7 @@ Proof.
   - destruct (find_descr c a) as [d|]; [|exact G].
     pose proof (set_sem_rej_meta d v k' e' g) as F. destruct (set_sem_rej d v k' e' g) as [g' o]. cbn [fst] in *.
     eapply Forall_same_meta; eauto.
+  - eapply Forall_same_meta; [apply connect_sem_meta | exact G].
 Qed.
 
 Lemma exec_cons c e g o ops : exec c e g (o :: ops) = exec c e (fst (step c e g o)) ops.
@@ -242,7 +256,7 @@ Proof. intro F. induction F as [|m m' g g' (H & _) F IH]; cbn [map]; [reflexivit
 Lemma membership_stable c e g o : changes_membership o = false ->
   map mid (fst (step c e g o)) = map mid g.
 Proof.
-  intro H. destruct o as [id|k ids|a v|a|k| | |id' a v| |a v k' e'|]; try discriminate; cbn [step]; try reflexivity.
+  intro H. destruct o as [id|k ids|a v|a|k| | |id' a v| |a v k' e'| |cl nk w obs]; try discriminate; cbn [step]; try reflexivity.
   - destruct (find_descr c a) as [d|]; [|reflexivity].
     pose proof (set_sem_meta d v g) as F. destruct (set_sem d v g) as [g' o]. cbn [fst] in *.
     now apply same_meta_ids.
@@ -252,6 +266,7 @@ Proof.
   - destruct (find_descr c a) as [d|]; [|reflexivity].
     pose proof (set_sem_rej_meta d v k' e' g) as F. destruct (set_sem_rej d v k' e' g) as [g' o]. cbn [fst] in *.
     now apply same_meta_ids.
+  - apply same_meta_ids, connect_sem_meta.
 Qed.
 
 (* ---- distinct objects stay distinct members -------------------------------------------------- *)
@@ -314,7 +329,7 @@ Qed.
 Lemma step_nodup c e g o : NoDup (map mid g) -> op_fresh g o = true -> NoDup (map mid (fst (step c e g o))).
 Proof.
   intros N Fr. destruct (changes_membership o) eqn:Ch.
-  - destruct o as [id|k ids|a v|a|k| | |id' a v| |a v k' e'|]; try discriminate; cbn [step op_fresh] in *.
+  - destruct o as [id|k ids|a v|a|k| | |id' a v| |a v k' e'| |cl nk w obs]; try discriminate; cbn [step op_fresh] in *.
     + destruct (type_of e id) as [ty|]; [|exact N].
       destruct (fresh e id) as [m|] eqn:F; [|exact N].
       destruct (accepts c ty); [|exact N]. cbn [fst]. rewrite map_app. cbn [map].
@@ -422,6 +437,57 @@ Lemma setmembers_bad_kind c e g k ids : seq_kind_ok c k = false ->
 Proof.
   intro K. cbn [step]. unfold seq_kind_ok in K.
   destruct (c_flavour c), k as [[| |]|]; try discriminate K; reflexivity.
+Qed.
+
+(* ---- connect_pipelines: identity-free specification ----------------------------------------------- *)
+Lemma zlist_eq_true : forall a b, zlist_eq a b = true -> a = b.
+Proof.
+  induction a as [|x a IH]; intros [|y b] H; cbn in H; try discriminate; [reflexivity|].
+  apply andb_true_iff in H as [H1 H2]. apply Z.eqb_eq in H1. subst. f_equal. now apply IH.
+Qed.
+
+Lemma nodupz_NoDup l : nodupz l = true -> NoDup l.
+Proof.
+  induction l as [|x l IH]; cbn [nodupz]; intro H; constructor.
+  - apply andb_true_iff in H as [H _]. apply negb_true_iff in H. now apply existsb_eqb_false.
+  - apply IH. now apply andb_true_iff in H as [_ H].
+Qed.
+
+Lemma connect_valid_spec cl w obs g g' :
+  (if connect_valid cl w obs g then (zip_assign "pipelines" g (map pipelines_value obs), ROk)
+   else (g, RErr EOther)) = (g', ROk) ->
+  List.length obs = List.length g
+  /\ Forall (fun row => map fst row = cl) obs
+  /\ NoDup (map snd (List.concat obs))
+  /\ Forall (fun p => w < snd p) (List.concat obs)
+  /\ map (mget "pipelines") g' = map pipelines_value obs
+  /\ Forall2 (same_except "pipelines") g g'.
+Proof.
+  destruct (connect_valid cl w obs g) eqn:V; [|discriminate]. intro E. injection E as <-.
+  unfold connect_valid in V. rewrite !andb_true_iff in V. destruct V as [[[V1 V2] V3] V4].
+  apply Nat.eqb_eq in V1.
+  split; [exact V1|]. split.
+  { apply Forall_forall. intros row I. rewrite forallb_forall in V2. now apply zlist_eq_true, V2. }
+  split; [now apply nodupz_NoDup|]. split.
+  { apply Forall_forall. intros p I. rewrite forallb_forall in V4. apply Z.ltb_lt. now apply V4. }
+  split; [apply zip_assign_get; now rewrite map_length | apply zip_assign_frame].
+Qed.
+
+(* whenever connect_pipelines is accepted by the model: one row of new pipelines per member, each row of
+   exactly the requested classes, no pipeline object shared between or within members, none older than
+   the call; every member's pipelines attribute is its row, nothing else about any member changes *)
+Lemma connect_spec c e cl nk w obs g g' : step c e g (OConnect cl nk w obs) = (g', ROk) ->
+  List.length obs = List.length g
+  /\ Forall (fun row => map fst row = cl) obs
+  /\ NoDup (map snd (List.concat obs))
+  /\ Forall (fun p => w < snd p) (List.concat obs)
+  /\ map (mget "pipelines") g' = map pipelines_value obs
+  /\ Forall2 (same_except "pipelines") g g'.
+Proof.
+  cbn [step]. unfold connect_sem.
+  destruct (find _ (c_table c)); [|discriminate]. destruct (find _ (c_table c)); [discriminate|].
+  destruct (match nk with Some k => negb (Nat.eqb k (List.length cl)) | None => false end); [discriminate|].
+  destruct cl as [|c0 cl']; [destruct g as [|m0 g0]; [|discriminate]|]; apply connect_valid_spec.
 Qed.
 
 (* a value written on a member directly (not through the group) is what the group reads next *)
